@@ -108,7 +108,7 @@ def run_lines(argv, lines, timeout=60, env=None):
     """Feed op lines, return (output lines, outcome, stderr-tail). outcome in ok|asan|ubsan|timeout|crash:<rc>."""
     data = "\n".join(lines) + "\n"
     try:
-        p = subprocess.run(argv, input=data, stdout=subprocess.PIPE, stderr=subprocess.PIPE, text=True,
+        p = subprocess.run(argv, input=data, stdout=subprocess.PIPE, stderr=subprocess.PIPE, text=True, errors="replace",
                            timeout=timeout, env=env)
     except subprocess.TimeoutExpired as e:
         out = e.stdout or ""
